@@ -32,6 +32,7 @@ import (
 	"path/filepath"
 	"runtime"
 	"runtime/debug"
+	"sort"
 	"strings"
 	"sync"
 	"time"
@@ -267,6 +268,9 @@ func c20Envelope(cfg Config, r *Result, model *c20Model, keys []c20Keys) {
 	// exhaustive tampering of a few sealed values, sealed for this purpose
 	nSweep := cfg.N(3, 20)
 	sweepLens := []int{1, 60, 150, 2, 5, 17, 40, 100, 200, 3, 64, 150, 250, 8, 30, 80, 120, 1, 300, 50}
+	if cfg.Tier != "thorough" {
+		sweepLens = []int{1, 20, 60}
+	}
 	for idx := 0; idx < nSweep; idx++ {
 		ki := 0 // mostly the 1024-bit key (an RSA-2048 operation costs twice as much), every fifth value the 2048-bit key
 		if idx%5 == 1 {
@@ -291,6 +295,39 @@ func c20Bucket(n int) int {
 		}
 	}
 	return 1 << 20
+}
+
+// positions that are altered: all of them in thorough; in quick the given fixed
+// ones (header, both ends of the RSA part), the last `tail` ones (the GCM tag /
+// the base64 padding) and `extra` random ones
+func c20Positions(cfg Config, n int, fixed []int, tail, extra int) []int {
+	if cfg.Tier == "thorough" {
+		out := make([]int, n)
+		for i := range out {
+			out[i] = i
+		}
+		return out
+	}
+	in := map[int]bool{}
+	for _, p := range fixed {
+		if p >= 0 && p < n {
+			in[p] = true
+		}
+	}
+	for p := n - tail; p < n; p++ {
+		if p >= 0 {
+			in[p] = true
+		}
+	}
+	for i := 0; i < extra && n > 0; i++ {
+		in[cfg.Rng.Intn(n)] = true
+	}
+	out := make([]int, 0, len(in))
+	for p := range in {
+		out = append(out, p)
+	}
+	sort.Ints(out)
+	return out
 }
 
 // candidate replacement values for a byte: all 255 others, or the 8 single-bit flips
@@ -337,8 +374,9 @@ func c20Sweep(cfg Config, r *Result, model *c20Model, keys []c20Keys, v c20Seale
 		return
 	}
 	var cases []c20TamperCase
-	// 1. every single-byte corruption of the envelope bytes
-	for pos := range v.Raw {
+	rlen := keys[v.Key].Bits / 8
+	// 1. every single-byte corruption of the envelope bytes (quick: at a sample of positions)
+	for _, pos := range c20Positions(cfg, len(v.Raw), []int{0, 1, 2, 3, 4, 5, 6, 3 + rlen - 4, 3 + rlen - 3, 3 + rlen - 2, 3 + rlen - 1, 3 + rlen, 3 + rlen + 1, 3 + rlen + 2, 3 + rlen + 3}, 16, 24) {
 		for _, b := range c20Candidates(v.Raw[pos], all) {
 			raw2 := append([]byte(nil), v.Raw...)
 			raw2[pos] = b
@@ -352,7 +390,7 @@ func c20Sweep(cfg Config, r *Result, model *c20Model, keys []c20Keys, v c20Seale
 	nModel := len(cases)
 	// 3. every single-character corruption of the base64 text, 4. every truncation of it
 	var b64cases []c20TamperCase
-	for pos := 0; pos < len(v.Sealed); pos++ {
+	for _, pos := range c20Positions(cfg, len(v.Sealed), []int{0, 1, 2, 3, 4, 5}, 6, 40) {
 		for _, b := range c20Candidates(v.Sealed[pos], allText) {
 			s2 := []byte(v.Sealed)
 			s2[pos] = b
@@ -464,12 +502,15 @@ func c20Sweep(cfg Config, r *Result, model *c20Model, keys []c20Keys, v c20Seale
 	_ = nModel
 	mode := "8 bit flips per position"
 	if all {
-		mode = "all 255 other values per envelope byte"
+		mode = "all 255 other values per altered envelope byte"
 		if allText {
 			mode += " and per base64 character"
 		} else {
 			mode += ", 8 bit flips per base64 character"
 		}
+	}
+	if cfg.Tier != "thorough" {
+		mode += ", sampled positions, all truncations"
 	}
 	r.Note("sweep of a sealed value: %d-bit key, text %d bytes, envelope %d bytes, base64 %d chars, %s, %d cases", keys[v.Key].Bits, len(v.Text), len(v.Raw), len(v.Sealed), mode, len(cases))
 	r.Note("  model sweep %.1fs, +classify %.1fs, +decrypt %.1fs, total %.1fs", tModel.Seconds(), tClassify.Seconds(), tDecrypt.Seconds(), time.Since(tStart).Seconds())
@@ -801,8 +842,8 @@ func (e *c20Env) check(q c20Question, mode c20Mode, equal []bool) {
 	for i, o := range q.Outs {
 		outsx[i] = Str(o)
 	}
-	ask := func(fixed bool) string {
-		a, err := e.model.Ask(Lst(Sym("verify"), Bool(fixed), Bool(mode.Ignore), Sym(mode.Key), Bool(mode.Seal), Bool(mode.VNone), Sym(q.AType), Str(q.Answer),
+	ask := func(beforeFix bool) string {
+		a, err := e.model.Ask(Lst(Sym("verify"), Bool(beforeFix), Bool(mode.Ignore), Sym(mode.Key), Bool(mode.Seal), Bool(mode.VNone), Sym(q.AType), Str(q.Answer),
 			Bool(q.IsSrc), LstOf(outsx), Str(q.Gen), Str(q.RunOut)).String())
 		if err != nil {
 			return "model-error:" + err.Error()
@@ -843,10 +884,9 @@ func (e *c20Env) check(q c20Question, mode c20Mode, equal []bool) {
 		case implClass != "ok" && implClass != "wrong":
 			r.Violate(Violation{Kind: "property", Key: "verify-unexpected-error:" + implClass, Detail: "a valid answer was rejected with something other than ErrWrongAnswer", Input: input, Impl: implClass})
 		}
-		// the corrected model function must coincide with the oracle
-		fx := ask(true)
-		if (fx == "ok") != want {
-			r.Violate(Violation{Kind: "correspondence", Key: "fixed-model-differs-from-oracle", Detail: "verify_choice_fixed does not decide the property's statement", Input: input, Model: fx})
+		// the model in force (proved to decide the property's statement) must coincide with the oracle
+		if (mclass == "ok") != want {
+			r.Violate(Violation{Kind: "correspondence", Key: "model-differs-from-oracle", Detail: "the model's verify_choice does not decide the property's statement on this case", Input: input, Model: mclass})
 		}
 	}
 }
@@ -1290,7 +1330,7 @@ func runC20(cfg Config, r *Result) {
 		return
 	}
 	defer os.RemoveAll(dir)
-	r.Rule = "A: Decrypt(Encrypt(t)) = t for random texts (0..20000 bytes, any Unicode, stray bytes) under 2 fresh key pairs (1024, 2048 bit); for 3 (quick) / 20 (thorough) sealed values every single-byte corruption of the envelope bytes and of the base64 text (thorough: all 255 other values per envelope byte for all 20 values and per base64 character for the first 6, 8 bit flips per character for the rest; quick: all 255 per envelope byte for the first value, otherwise the 8 single-bit flips per position), every truncation of both, and the other private key: result must be rejection or the original text, and the rejection stage must be the one the model predicts under the ideal functionality; model unframe/frame on the real envelopes and on random garbage. " +
+	r.Rule = "A: Decrypt(Encrypt(t)) = t for random texts (0..20000 bytes, any Unicode, stray bytes) under 2 fresh key pairs (1024, 2048 bit); for 3 (quick) / 20 (thorough) sealed values single-byte corruptions of the envelope bytes and of the base64 text (thorough: every position, all 255 other values per envelope byte for all 20 values and per base64 character for the first 6, 8 bit flips per character for the rest; quick: a sample of about 55 envelope positions - header, both ends of the RSA part, the whole GCM tag, 24 random - and about 50 base64 positions, all 255 values at the sampled envelope positions of the first value, otherwise the 8 single-bit flips), every truncation of both, and the other private key: result must be rejection or the original text, and the rejection stage must be the one the model predicts under the ideal functionality; model unframe/frame on the real envelopes and on random garbage. " +
 		"B: random Seal/Unseal/Unseal-with-wrong-key sequences on the real front matter vs the model. " +
 		"C: every non-empty subset of letters a..(one beyond the last choice) x every equal/different assignment for 2..5 choices (multiple choice), every single letter of those and z (single choice), through markdown files whose outputs are produced by running evy, in plain and sealed / wrong key / no key / ignored / verification-none modes; text answers with white-space variants. " +
 		"non-trivial = non-empty text (A), >= 2 operations (B), every question (C); distinct = distinct canonical case"
